@@ -149,6 +149,7 @@ def compare_runs(make_handler, ci, cc, after, psel, k0, k1, setup=None):
 
 
 _B = ("crash at invocation 0(none)..3 x API call 1..4 x before/after apply; consumer runs 0 or 2 steps ahead right after the first hand-over of each invocation; ")
+PAGE_SIZES = [None, 1, 2]
 PAGE = [None, "1 (each continuation preceded by an empty page with a marker)", 2]
 
 
